@@ -1127,7 +1127,7 @@ class Evaluator:
     def stmt(self, st: ast.stmt):
         self.steps += 1
         if self.steps > self.max_steps:
-            raise Unsupported("evaluation step bound exceeded", st)
+            raise LoopBound("evaluation step bound exceeded", st)
         self.trace.append(st)
         if isinstance(st, ast.Expr):
             if isinstance(st.value, ast.Constant):
